@@ -77,6 +77,9 @@ def texts_for(entry, kind):
             except UnicodeError:
                 pass
 
+    # an empty first line, and a lone CR as the very last character
+    extra.append(nl + 'x' + nl + 'y\r')
+
     return extra + [
         'a' + nl + 'b',
         'first line' + nl + rich + nl + '  indented ' + exotic + nl,
